@@ -2160,6 +2160,10 @@ func (s *swamp) SaveFunction(t treasure.Treasure, guardID guard.ID) treasure.Tre
 		s.sendEventToHydra(t, nil, treasure.StatusNew)
 		s.sendSwampInfo()
 
+		// the save has been classified: the change flags must not leak into the
+		// next save, and they must be cleared while the guard is still held
+		t.ResetChangeFlags(guardID)
+
 		// immediately write the treasure to the chroniclerInterface if the write interval is 0
 		s.mu.RLock()
 		wi := s.writeInterval
@@ -2221,6 +2225,10 @@ func (s *swamp) SaveFunction(t treasure.Treasure, guardID guard.ID) treasure.Tre
 		// send the event to the hydra
 		s.sendEventToHydra(t, existedTreasureObj, treasure.StatusModified)
 
+		// the save has been classified: the change flags must not leak into the
+		// next save, and they must be cleared while the guard is still held
+		t.ResetChangeFlags(guardID)
+
 		// immediately write the treasure to the chroniclerInterface if the write interval is 0
 		s.mu.RLock()
 		wi := s.writeInterval
@@ -2241,6 +2249,7 @@ func (s *swamp) SaveFunction(t treasure.Treasure, guardID guard.ID) treasure.Tre
 	}
 
 	// nothing changed, we don't need to send events to the hydra
+	t.ResetChangeFlags(guardID)
 	return treasure.StatusSame
 
 }
